@@ -511,6 +511,9 @@ func runC01(rc *RC) {
 				rc.Evals["C01.c6"]++
 				rest := bytes.TrimSpace(sd.conn.Conn.Out().Tap[e.outLen:])
 				okHdr := len(rest) == 0 || bytes.HasPrefix(rest, []byte("<?xml")) || bytes.HasPrefix(rest, []byte("<stream:stream")) || bytes.HasPrefix(rest, []byte("<open "))
+				if len(rest) == 0 && done && err == nil {
+					rc.Failf("C01.c6", "established-without-restart:"+sig, "%s: %s returned a new ReadWriter (a restart is due) but the session was reported established without a new stream header being sent", sd.name, e.ns)
+				}
 				if !okHdr {
 					rc.Failf("C01.c6", "restart-without-header:"+sig, "%s: after %s returned a new ReadWriter the next bytes written are %q", sd.name, e.ns, clip(string(rest), 80))
 				}
